@@ -638,6 +638,25 @@ class Repo:
         self._mro_cache[key] = out
         return out
 
+    def simple_constants(self, module):
+        """NAME -> literal, for names bound exactly once at module level to a number / string / bytes /
+        None / bool (enum-like constants)"""
+        key = ('sconsts', module)
+        if key in self._mro_cache:
+            return self._mro_cache[key]
+        tree = self.modules[module]['tree']
+        stores = {}
+        for n in ast.walk(tree):
+            if isinstance(n, ast.Name) and isinstance(n.ctx, (ast.Store, ast.Del)):
+                stores[n.id] = stores.get(n.id, 0) + 1
+        out = {}
+        for st in tree.body:
+            if isinstance(st, ast.Assign) and len(st.targets) == 1 and isinstance(st.targets[0], ast.Name) and isinstance(st.value, ast.Constant) \
+                    and stores.get(st.targets[0].id) == 1 and st.targets[0].id.upper() == st.targets[0].id:
+                out[st.targets[0].id] = st.value.value
+        self._mro_cache[key] = out
+        return out
+
     def module_sequences(self, module):
         """name -> tuple / list display, for names bound exactly once, at module level, to a
         display of at most 8 elements that nothing in the module mutates"""
@@ -827,6 +846,56 @@ class Repo:
                         if isinstance(x, ast.Name) and x.id in sent and isinstance(y, ast.Name) and y.id not in sent and '@' not in y.id and not y.id.startswith('<'):
                             return isinstance(t.ops[0], ast.IsNot)
                 return None
+        # comparisons between enum-like module constants (UPPER_CASE names bound once to literals)
+        inner_c = fold
+        repo_ = self
+
+        def fold(t, _inner=inner_c):
+            r = _inner(t) if _inner is not None else None
+            if r is not None:
+                return r
+            mod0 = getattr(w, 'module', None)
+            if isinstance(t, ast.Compare) and len(t.ops) == 1 and isinstance(t.ops[0], (ast.Eq, ast.NotEq, ast.Is, ast.IsNot)):
+                # Class.CONSTANT against Class.CONSTANT (class-level literals that nothing rebinds)
+                def cval(x):
+                    if isinstance(x, ast.Attribute) and isinstance(x.value, ast.Name) and x.value.id in repo_.classes and x.attr.upper() == x.attr:
+                        ci_ = repo_.classes[x.value.id]
+                        vals_ = [st_.value for st_ in ci_.node.body if isinstance(st_, ast.Assign) and len(st_.targets) == 1 and isinstance(st_.targets[0], ast.Name) and st_.targets[0].id == x.attr]
+                        if len(vals_) == 1 and isinstance(vals_[0], ast.Constant) and x.attr not in repo_._stored_attr_names():
+                            return ('c', vals_[0].value)
+                    return None
+                a_, b_ = cval(t.left), cval(t.comparators[0])
+                if a_ is not None and b_ is not None:
+                    same = type(a_[1]) is type(b_[1]) and a_[1] == b_[1]
+                    return same if isinstance(t.ops[0], (ast.Eq, ast.Is)) else not same
+            if isinstance(t, ast.Compare) and len(t.ops) == 1 and isinstance(t.ops[0], (ast.Eq, ast.NotEq)) and mod0 and mod0 in repo_.modules \
+                    and isinstance(t.comparators[0], ast.Constant) and t.comparators[0].value == 0 and isinstance(t.left, ast.BinOp):
+                # the linear normal form  A + -1*B == 0  of a comparison between two enum-like constants
+                sc = repo_.simple_constants(mod0)
+                names_ = [x for x in ast.walk(t.left) if isinstance(x, ast.Name)]
+                if names_ and all(x.id in sc and isinstance(sc[x.id], int) and not isinstance(sc[x.id], bool) for x in names_) \
+                        and all(isinstance(x, (ast.Name, ast.Constant, ast.BinOp, ast.UnaryOp, ast.operator, ast.unaryop, ast.expr_context)) for x in ast.walk(t.left)):
+                    try:
+                        val = eval(compile(ast.fix_missing_locations(ast.Expression(body=copy.deepcopy(t.left))), '<fold>', 'eval'), {'__builtins__': {}}, dict(sc))
+                        return (val == 0) if isinstance(t.ops[0], ast.Eq) else (val != 0)
+                    except Exception:
+                        pass
+            if isinstance(t, ast.Compare) and len(t.ops) == 1 and isinstance(t.ops[0], (ast.Eq, ast.NotEq, ast.Is, ast.IsNot)):
+                mod = getattr(w, 'module', None)
+                if mod and mod in repo_.modules:
+                    sc = repo_.simple_constants(mod)
+                    vals = []
+                    for x in (t.left, t.comparators[0]):
+                        if isinstance(x, ast.Name) and x.id in sc:
+                            vals.append(('c', sc[x.id]))
+                        elif isinstance(x, ast.Constant):
+                            vals.append(('c', x.value))
+                        else:
+                            vals.append(None)
+                    if vals[0] is not None and vals[1] is not None and (isinstance(t.left, ast.Name) or isinstance(t.comparators[0], ast.Name)):
+                        same = type(vals[0][1]) is type(vals[1][1]) and vals[0][1] == vals[1][1]
+                        return same if isinstance(t.ops[0], (ast.Eq, ast.Is)) else not same
+            return None
         w = Walker(self.resolver(recv_types), max_paths=max_paths, inline_depth=inline_depth, fold=fold, tag=tag, keep=keep)
         w.class_constant = self.class_constant
         w.module_tables = self.module_tables
